@@ -340,7 +340,8 @@ class Grid(object):
         TODO
         """
         if (drawingRank is None):
-            return self._f.min()
+            # A process may own no points: the neutral element of min
+            return self._f.min() if self._f.size else np.inf
         else:
             if (self._f.size == 0):
                 return self.global_comm.reduce(np.inf, op=MPI.MIN, root=drawingRank)
@@ -375,7 +376,8 @@ class Grid(object):
         TODO
         """
         if (drawingRank is None):
-            return self._f.max()
+            # A process may own no points: the neutral element of max
+            return self._f.max() if self._f.size else -np.inf
         else:
             if (self._f.size == 0):
                 return self.global_comm.reduce(-np.inf, op=MPI.MAX, root=drawingRank)
